@@ -214,6 +214,10 @@ class Ctx:
         self.failing.append({'fn': fn, 'args': args, 'expected': expected, 'got': got, 'note': note,
                              'replay_py': replay_py})
 
+    def failures_new(self):
+        """failing inputs recorded so far that no known finding accounts for"""
+        return [f for f in self.failing if self._match_known(f) is None]
+
     # ---- Lean ---------------------------------------------------------
     def build(self, modules, label=None):
         """build theorem / obligation modules; each module is one obligation"""
